@@ -31,6 +31,7 @@ CONSTANTS Buf,        \* line-buffer-size
                       \*  "D19" a Submodule log line first writes the header still owed to the previous section
                       \*  "D21" the header written for a mode change also says that the file is binary
                       \*  "D23" (color-only) a header line written directly to the writer first empties the output buffer
+                      \*  "D24" "Binary files ... differ" after the pair's header has been written is shown as it stands
                       \*  "D20" "+++ /dev/null" keeps the language chosen from the old name (deleted file)
                       \* Fixes = {} is the tree as pinned; the regression configs drop one fix and
                       \* must produce a counterexample (the design-level check is not vacuous).
@@ -150,6 +151,10 @@ HBinary(s, k, line) ==
        IN Direct(Emit([p EXCEPT !.st = "DiffHeader", !.hh = 0]), Row("raw", k, <<>>))
   ELSE IF s.mf = NoFile /\ s.pf = NoFile
   THEN [Direct(Emit(s), Row("raw", k, <<>>)) EXCEPT !.handled = s.cur]
+  \* ("D24": the header of the current pair has been written already - the previous file of a diff -r stream, or a
+  \* renamed file, whose header was due at "rename to" -: the line is written as it stands, after what is buffered)
+  ELSE IF "D24" \in Fixes /\ s.cur # <<>> /\ s.handled = s.cur
+  THEN Direct(Emit(Flush(s)), Row("raw", k, <<>>))
   ELSE [s EXCEPT !.bin = TRUE]
 
 \* emit_hunk_header_line
